@@ -4,6 +4,7 @@ import (
 	"fmt"
 	"go/token"
 	"go/types"
+	"os"
 	"strings"
 )
 
@@ -114,6 +115,8 @@ func (vc *VC) assume(t string) {
 }
 
 // define introduces a named constant equal to term (keeps models readable and terms small).
+var dbgDef = os.Getenv("GOVC_DEBUG_DEF")
+
 func (vc *VC) define(prefix, sort, term string) string {
 	if len(term) < 24 && !strings.Contains(term, " ") {
 		return term
@@ -126,10 +129,16 @@ func (vc *VC) define(prefix, sort, term string) string {
 		// reuse only a definition whose block can reach the current one (control-flow slicing
 		// drops the defining equation otherwise)
 		if d.blk < 0 || d.blk == vc.curBlk || (vc.reach != nil && vc.reach[d.blk] != nil && vc.reach[d.blk][vc.curBlk]) {
+			if dbgDef != "" && d.name == dbgDef {
+				fmt.Fprintf(os.Stderr, "reuse %s defined in blk %d at blk %d\n", d.name, d.blk, vc.curBlk)
+			}
 			return d.name
 		}
 	}
 	n := vc.fresh(prefix, sort)
+	if dbgDef != "" && n == dbgDef {
+		fmt.Fprintf(os.Stderr, "define %s in blk %d\n", n, vc.curBlk)
+	}
 	vc.assume(eq(n, term))
 	vc.defMemo[key] = append(vc.defMemo[key], memoDef{n, vc.curBlk})
 	return n
